@@ -82,6 +82,20 @@ type deriveCase struct {
 	// FaultKind: which permanent error the injected fault returns (0 the harness's own, 1 ErrNotHardened,
 	// 2 ErrHardenedChildPublicKey, 3 an error wrapping ErrNotHardened)
 	FaultKind int `json:"fault_kind,omitempty"`
+	// KeyLen > 0 (toyW curves): the curve's HMAC key is a pattern of this many bytes (SHA-512 block size 128:
+	// a key longer than that is hashed first, one of exactly that size is not)
+	KeyLen int `json:"key_len,omitempty"`
+}
+
+func toyHmacKey(n int) []byte {
+	if n <= 0 {
+		return nil
+	}
+	b := make([]byte, n)
+	for i := range b {
+		b[i] = byte('a' + i%23)
+	}
+	return b
 }
 
 func masks(name string) byte {
@@ -107,8 +121,12 @@ func curves(c deriveCase) (slip10.Curve, ref.Curve, *counter) {
 	case "ed25519":
 		return eddsa.Ed25519(), ref.Ed25519, cnt
 	case "toyW50", "toyW90":
-		return &toyW{wrap: c.Wrap, mask: masks(c.Curve), cnt: cnt, fault: fault{c.FailNew, c.FailShift, c.FaultKind}, nShift: new(int)},
-			&ref.Weier{C: secp.P256, Key: "toyW seed", Mask: masks(c.Curve)}, cnt
+		refKey := "toyW seed"
+		if c.KeyLen > 0 {
+			refKey = string(toyHmacKey(c.KeyLen))
+		}
+		return &toyW{wrap: c.Wrap, mask: masks(c.Curve), cnt: cnt, fault: fault{c.FailNew, c.FailShift, c.FaultKind}, nShift: new(int), hmacKey: toyHmacKey(c.KeyLen)},
+			&ref.Weier{C: secp.P256, Key: refKey, Mask: masks(c.Curve)}, cnt
 	case "toyS50", "toyS90", "toyS98":
 		return &toyS{wrap: c.Wrap, mask: masks(c.Curve), cnt: cnt, fault: fault{c.FailNew, c.FailShift, c.FaultKind}, nShift: new(int)},
 			&ref.Ed{Mask: masks(c.Curve), Toy: true}, cnt
@@ -395,6 +413,9 @@ func genDerive(t *rapid.T) deriveCase {
 		path[i] = genIndex(t, curve == "ed25519")
 	}
 	c := deriveCase{Curve: curve, Seed: seed, Path: path, PubFrom: -1}
+	if (curve == "toyW50" || curve == "toyW90") && h.Pick(t, "hmackey", 2, 1) == 1 {
+		c.KeyLen = h.OneOf(t, "keylen", 1, 63, 64, 65, 127, 128, 128, 129, 200, 256)
+	}
 	if curve != "ed25519" && n > 0 && h.Pick(t, "pub", 2, 1) == 1 {
 		c.PubFrom = rapid.IntRange(0, n-1).Draw(t, "pubfrom")
 		// mostly keep the public part non-hardened so that it is defined
